@@ -41,6 +41,8 @@ pub mod api;
 pub mod output;
 pub use toktrie;
 pub mod panic_utils;
+#[cfg(llguidance_verif)]
+pub mod verif_seam;
 
 mod constraint;
 mod stop_controller;
